@@ -36,6 +36,9 @@ type Prophet struct {
 	dataMutex sync.RWMutex
 	// config contains the values for prophet constants
 	config ProphetConfig
+	// failureMutex serializes ReportFailure, which reads, modifies and writes back a bundle's store item and is
+	// called concurrently for each failed transmission of a bundle.
+	failureMutex sync.Mutex
 }
 
 func NewProphet(c *Core, config ProphetConfig) *Prophet {
@@ -380,6 +383,9 @@ func (prophet *Prophet) SenderForBundle(bp BundleDescriptor) (sender []cla.Conve
 }
 
 func (prophet *Prophet) ReportFailure(bp BundleDescriptor, sender cla.ConvergenceSender) {
+	prophet.failureMutex.Lock()
+	defer prophet.failureMutex.Unlock()
+
 	bundleItem, err := prophet.c.store.QueryId(bp.Id)
 	if err != nil {
 		log.WithFields(log.Fields{
